@@ -4,6 +4,7 @@ SPEC = dict(
     coq_dir="C13",
     coq_targets=["C13/Proofs.vo", "C13/Examples.vo"],
     allowed_axioms=[],
+    harness_timeout=600,
     level_text=("Unbounded Coq theorems about an executable model of skrifa's COLR painting (ColorGlyph::paint, "
                 "traverse_with_callbacks incl. the CollectFillGlyphPainter retry, traverse_v0_range, Decycler<usize,64>) over an "
                 "ARBITRARY COLR instance (paint references, layers, base glyphs, clip boxes given by arbitrary functions: any v0/v1 table, "
